@@ -98,6 +98,22 @@ func serverIDArgs(c *ctx, v6 bool) []string {
 
 // ---- request batteries
 
+// option code, then values an earlier plugin may have set
+var preset4 = [][]string{
+	{"51", "00000e10", "00000000", "ffffffff", "00000001"},
+	{"1", "ffff0000", "00000000", "ffffffff"},
+	{"3", "02020202", "00000000"},
+	{"6", "01010101", "00000000"},
+	{"26", "05dc", "0000", "ffff"},
+	{"54", "0a090909", "00000000"},
+	{"108", "00000001", "00000000"},
+	{"116", "01", "00"},
+	{"119", "00", "016100"},
+	{"121", "080a0a000001", "00c0a80101"},
+	{"66", "78"},
+	{"67", "79"},
+}
+
 var relevant4 = []dhcpv4.OptionCode{dhcpv4.OptionSubnetMask, dhcpv4.OptionRouter, dhcpv4.OptionDomainNameServer, dhcpv4.OptionInterfaceMTU,
 	dhcpv4.OptionIPAddressLeaseTime, dhcpv4.OptionTFTPServerName, dhcpv4.OptionBootfileName, dhcpv4.OptionIPv6OnlyPreferred,
 	dhcpv4.OptionAutoConfigure, dhcpv4.OptionDNSDomainSearchList, dhcpv4.OptionClasslessStaticRoute, dhcpv4.OptionDomainName}
@@ -134,24 +150,34 @@ func (c *ctx) req4(ownSID net.IP) string {
 		d.UpdateOption(dhcpv4.OptAutoConfigure(dhcpv4.AutoConfiguration(c.rng.Intn(2))))
 	}
 	other := net.IPv4(10, 9, 9, 9).To4()
-	sid := func() net.IP {
-		switch c.rng.Intn(5) {
-		case 0:
+	// server-address field x server-identifier option: each of absent / zero / own / other, all 16
+	// combinations equally likely (cell picks the combination when the caller enumerates them)
+	val := func(k int) net.IP {
+		switch k {
+		case 1:
 			return net.IPv4zero.To4()
-		case 1, 2:
+		case 2:
 			if ownSID != nil {
 				return ownSID
 			}
 			return other
-		default:
+		case 3:
 			return other
 		}
+		return nil
 	}
-	if c.rng.Intn(3) == 0 {
-		d.ServerIPAddr = sid()
+	cell := c.sidCell
+	if cell < 0 {
+		cell = c.rng.Intn(16)
+		if c.rng.Intn(2) == 0 {
+			cell = 0 // most clients name no server
+		}
 	}
-	if c.rng.Intn(3) == 0 {
-		d.UpdateOption(dhcpv4.OptServerIdentifier(sid()))
+	if v := val(cell / 4); v != nil {
+		d.ServerIPAddr = v
+	}
+	if v := val(cell % 4); v != nil {
+		d.UpdateOption(dhcpv4.OptServerIdentifier(v))
 	}
 	if c.rng.Intn(12) == 0 {
 		d.UpdateOption(dhcpv4.OptGeneric(dhcpv4.OptionServerIdentifier, []byte{10, 0, 0}))
@@ -168,6 +194,8 @@ func (c *ctx) req4(ownSID net.IP) string {
 	if c.rng.Intn(2) == 0 {
 		yi = net.IPv4(10, 0, 0, byte(1+c.rng.Intn(200))).To4()
 	}
+	// what earlier plugins have already put into the response: any subset of the options the
+	// built-in plugins own, each with ordinary and boundary values (zero, all-ones)
 	ropts := "-"
 	switch c.rng.Intn(6) {
 	case 0:
@@ -176,6 +204,16 @@ func (c *ctx) req4(ownSID net.IP) string {
 		ropts = "6:01010101,3:02020202,1:ffff0000,26:05dc"
 	case 2:
 		ropts = "51:0000003c,54:0a090909,121:080a0a000001,119:00,108:00000001,116:01,66:78,67:79"
+	case 3:
+		var parts []string
+		for _, cv := range preset4 {
+			if c.rng.Intn(3) == 0 {
+				parts = append(parts, cv[0]+":"+cv[1+c.rng.Intn(len(cv)-1)])
+			}
+		}
+		if len(parts) > 0 {
+			ropts = strings.Join(parts, ",")
+		}
 	}
 	return fmt.Sprintf("preq4 %s %d %s %s", hx(d.ToBytes()), rmt, hx(yi), ropts)
 }
@@ -264,6 +302,9 @@ func (c *ctx) req6(own dhcpv6.DUID) string {
 func genPlug(c *ctx) {
 	for c.count < c.n {
 		sp := plugSpecs[c.rng.Intn(len(plugSpecs))]
+		if c.rng.Intn(10) == 0 {
+			sp = plugSpecs[len(plugSpecs)-1] // server_id: the one plugin that drops requests
+		}
 		v6 := sp.v6 && (!sp.v4 || c.rng.Intn(2) == 0)
 		var args []string
 		if sp.name == "server_id" {
@@ -294,13 +335,24 @@ func genPlug(c *ctx) {
 				ownDUID = duidFor(args)
 			}
 		}
+		c.sidCell = -1
+		if sp.name == "server_id" && !v6 {
+			// the whole server-address x server-identifier matrix, every time
+			nreq = 16 + c.rng.Intn(6)
+		}
 		for i := 0; i < nreq; i++ {
 			if v6 {
 				group = append(group, c.req6(ownDUID))
 			} else {
+				if sp.name == "server_id" && i < 16 {
+					c.sidCell = i
+				} else {
+					c.sidCell = -1
+				}
 				group = append(group, c.req4(ownSID))
 			}
 		}
+		c.sidCell = -1
 		runGroup(c, group)
 	}
 }
